@@ -744,6 +744,9 @@ func suiteCodec(args []string) {
 	}
 	// group 5: streams of messages through one Decoder (C06)
 	runStreams(cw, rep, r, wfMsgs, *n/10+3, viol)
+	// group 6: the decoder on reader objects (Readers.v): the same script of read sizes drives the real
+	// bufio / LimitReader / ReadFull / CopyN stack and their models
+	runScripted(cw, rep, r, validMsgs, wfMsgs, *n, viol)
 
 	cw.close()
 	rep.Evaluations = cw.n
@@ -924,6 +927,190 @@ func runStreams(cw *caseWriter, rep *Report, r *rand.Rand, valid [][2]string, co
 		}
 		check("chunks", &chunkReader{data: append([]byte(nil), stream...), sizes: sizes, termErr: io.EOF, withEOF: true})
 		check("bufio16", bufio.NewReaderSize(bytes.NewReader(stream), 16))
+	}
+}
+
+// scriptReader is the transport of Readers.v (base_read): every Read consumes one entry of the script of sizes
+// (0 = empty read; script exhausted = everything that is left), hands out at most that many bytes, may deliver
+// the last bytes together with the terminal error, and keeps returning that error afterwards
+type scriptReader struct {
+	data  []byte
+	sizes []int
+	weof  bool
+	term  error
+}
+
+func (s *scriptReader) Read(p []byte) (int, error) {
+	if len(s.data) == 0 {
+		return 0, s.term
+	}
+	n := len(s.data)
+	if len(s.sizes) > 0 {
+		n = s.sizes[0]
+		s.sizes = s.sizes[1:]
+	}
+	if n == 0 {
+		return 0, nil
+	}
+	if n > len(p) {
+		n = len(p)
+	}
+	if n > len(s.data) {
+		n = len(s.data)
+	}
+	copy(p, s.data[:n])
+	s.data = s.data[n:]
+	if len(s.data) == 0 && s.weof {
+		return n, s.term
+	}
+	return n, nil
+}
+
+// genScript: read sizes covering the data - single bytes, small and large chunks, runs of empty reads (< 50)
+func genScript(r *rand.Rand, total int) []int {
+	var sizes []int
+	style := r.Intn(5)
+	for left := total; left > 0; {
+		var s int
+		switch style {
+		case 0:
+			s = 1
+		case 1:
+			s = r.Intn(9)
+		case 2:
+			s = r.Intn(40)
+			if r.Intn(6) == 0 {
+				for k := r.Intn(30); k > 0; k-- {
+					sizes = append(sizes, 0)
+				}
+			}
+		case 3:
+			s = 1 + r.Intn(5000)
+		default:
+			s = []int{0, 1, 3, 7, 8, 9, 15, 16, 17, 511, 512, 513, 4095, 4096, 4097}[r.Intn(15)]
+		}
+		sizes = append(sizes, s)
+		left -= s
+	}
+	if r.Intn(4) == 0 && len(sizes) > 1 {
+		sizes = sizes[:r.Intn(len(sizes))] // script ends early: the rest comes at once
+	}
+	return sizes
+}
+
+func sizesText(sizes []int) string {
+	if len(sizes) == 0 {
+		return "-"
+	}
+	p := make([]string, len(sizes))
+	for i, s := range sizes {
+		p[i] = fmt.Sprint(s)
+	}
+	return strings.Join(p, ",")
+}
+
+func scriptedSource(mode int, data []byte, sizes []int, weof bool, term error) (io.Reader, func() int) {
+	if mode == 0 {
+		br := bytes.NewReader(data)
+		return br, br.Len
+	}
+	sr := &scriptReader{data: append([]byte(nil), data...), sizes: append([]int(nil), sizes...), weof: weof, term: term}
+	if mode == 1 {
+		return sr, func() int { return len(sr.data) }
+	}
+	return bufio.NewReaderSize(sr, mode), func() int { return len(sr.data) }
+}
+
+func runScripted(cw *caseWriter, rep *Report, r *rand.Rand, validMsgs, wfMsgs [][2]string, n int, viol func(string, map[string]interface{})) {
+	if len(validMsgs) == 0 {
+		return
+	}
+	count := 2*n + 100
+	for i := 0; i < count; i++ {
+		m := validMsgs[r.Intn(len(validMsgs))]
+		tn := m[0]
+		b, _ := hex.DecodeString(m[1])
+		if len(b) > 6000 {
+			continue
+		}
+		kind := "valid"
+		switch i % 4 {
+		case 1:
+			other, _ := hex.DecodeString(validMsgs[r.Intn(len(validMsgs))][1])
+			kind, b = mutate(r, b, other)
+		case 2:
+			if len(b) > 0 {
+				b = b[:r.Intn(len(b))]
+			}
+			kind = "truncated"
+		}
+		if len(b) > 6000 {
+			continue
+		}
+		mode := []int{0, 1, 1, 16, 16, 37, 4096}[r.Intn(7)]
+		term, termName := io.EOF, "eof"
+		if i%5 == 3 {
+			term, termName = errInjected, "ioe"
+		}
+		var sizes []int
+		weof := false
+		if mode != 0 {
+			sizes = genScript(r, len(b))
+			weof = r.Intn(2) == 0
+		} else {
+			term, termName = io.EOF, "eof"
+		}
+		src, left := scriptedSource(mode, b, sizes, weof, term)
+		res := implDecodeFrom(tn, src, func() int { return 0 })
+		obs := res.obs
+		if mode == 0 {
+			obs += fmt.Sprintf(" | left=%d", left())
+		}
+		w := "0"
+		if weof {
+			w = "1"
+		}
+		cw.add("cdec", fmt.Sprintf("cdec %s %d %s %s %s %s", tn, mode, sizesText(sizes), w, termName, hexBytes(b)), obs)
+		rep.Distribution[fmt.Sprintf("cdec:mode=%d:%s:%s:%s", mode, termName, kind, strings.SplitN(res.obs, " ", 2)[0])]++
+		if strings.HasPrefix(res.obs, "panic") || res.obs == "hang" {
+			viol("decode-"+strings.SplitN(res.obs, " ", 2)[0], map[string]interface{}{"type": tn, "bytes": hexBytes(b), "script": sizesText(sizes), "observed": res.obs})
+		}
+	}
+	// streams through one Decoder on the scripted transport
+	var pool [][]byte
+	for _, m := range wfMsgs {
+		if m[0] == "Request" {
+			if b, err := hex.DecodeString(m[1]); err == nil && len(b) < 1500 {
+				pool = append(pool, b)
+			}
+		}
+	}
+	for i := 0; i < count/8+3 && len(pool) > 0; i++ {
+		var stream []byte
+		for k := 1 + r.Intn(4); k > 0; k-- {
+			stream = append(stream, pool[r.Intn(len(pool))]...)
+		}
+		if i%4 == 3 {
+			stream = append(stream, randomBytes(r)...)
+		}
+		mode := []int{0, 1, 16, 37}[r.Intn(4)]
+		var sizes []int
+		weof := false
+		if mode != 0 {
+			sizes = genScript(r, len(stream))
+			weof = r.Intn(2) == 0
+		}
+		src, left := scriptedSource(mode, stream, sizes, weof, io.EOF)
+		obs := implStream("Request", src)
+		if mode == 0 {
+			obs += fmt.Sprintf(" | left=%d", left())
+		}
+		w := "0"
+		if weof {
+			w = "1"
+		}
+		cw.add("cstream", fmt.Sprintf("cstream Request %d %s %s eof %s", mode, sizesText(sizes), w, hexBytes(stream)), obs)
+		rep.Distribution[fmt.Sprintf("cstream:mode=%d", mode)]++
 	}
 }
 
